@@ -10,7 +10,7 @@
     WriteHeaders anywhere, header changes and clear(Header()) at any point), every
     content-type expression [ctm], every sniffer [sniff], every request.  Status, headers and
     body are those of the FINAL response; informational responses are in [o_info]. *)
-From Coq Require Import String List NArith.
+From Coq Require Import String List NArith Bool.
 From Fabio Require Import Lib.Bytes Model.Gzip Proofs.Gzip.
 Import ListNotations.
 Local Open Scope N_scope.
